@@ -3,9 +3,9 @@ package main
 // C07 — numbers compare and compute exactly as specified.
 
 import (
-	"go/constant"
 	"fmt"
 	"go/ast"
+	"go/constant"
 	"go/token"
 	"go/types"
 	"sort"
